@@ -7,7 +7,8 @@ behind them) read as a value, `open(<path of x>)`, `<path of x>.read_text()/read
 Provenance.  Every value that is (or contains, or is a path of) a definition carries a set of provenance tags; all other
 values carry none.  Tags are introduced by the *declared* effect contract of the function under analysis (parameters,
 `self`, declared fields of `self`), by declared results of callees, and by `filter` in functions that declare
-`filter_selects`.  Tags are propagated flow-insensitively (a variable carries the union of everything ever assigned to it,
+`filter_selects` (a *selection by a predicate that constrains both the full name and the version of the element*, in any of
+its spellings: filter + lambda, comprehension / generator with `if`, `if` inside a loop).  Tags are propagated flow-insensitively (a variable carries the union of everything ever assigned to it,
 containers the union of everything ever stored in them) through attribute reads, subscripts, iteration, comprehensions,
 container methods and the transparent builtins (list, sorted, filter, map, ...).
 
@@ -121,6 +122,7 @@ class FunctionAnalysis:
         self.returns: Set[str] = set()
         self.final = False
         self.changed = False
+        self.refined: List[Dict[str, Set[str]]] = []  # scoped refinements of a variable's provenance (selection predicates)
         self.nested: Dict[str, ast.FunctionDef] = {}
         self.nested_ret: Dict[str, Set[str]] = {}
         self.exc_names: Set[str] = set()
@@ -239,7 +241,17 @@ class FunctionAnalysis:
             self._walk_body(st.orelse)
         elif isinstance(st, ast.If):
             self._expr(st.test)
+            sel = self.contract.filter_selects
+            scope = {}
+            if sel:
+                for n in ast.walk(st.test):
+                    if isinstance(n, ast.Name) and n.id not in scope and self._e_Name(n) and self._selects([st.test], n.id):
+                        scope[n.id] = {sel}  # under this test the variable holds a definition selected by name and version
+            if scope:
+                self.refined.append(scope)
             self._walk_body(st.body)
+            if scope:
+                self.refined.pop()
             self._walk_body(st.orelse)
         elif isinstance(st, (ast.With, ast.AsyncWith)):
             for item in st.items:
@@ -371,7 +383,58 @@ class FunctionAnalysis:
         return set()
 
     def _e_Name(self, e):
+        for scope in reversed(self.refined):
+            if e.id in scope:
+                return set(scope[e.id])
         return self.env.get(e.id, set())
+
+    # ---------------------------------------------------------------- selection by a name-and-version predicate
+    def _selects(self, tests, var: str) -> bool:
+        """Does the conjunction of `tests` constrain BOTH the full name and the version of the definition held by `var`?
+        Conjuncts are the operands of top-level `and`s; the full name must occur (directly or through str methods such as
+        .lower()) on one side of an `==`, and `var.version` (or both its .major and .minor) on one side of an `==`.
+        Disjunctions, negations and comparisons other than `==` do not count."""
+        conj = []
+
+        def flatten(t):
+            if isinstance(t, ast.BoolOp) and isinstance(t.op, ast.And):
+                for v in t.values:
+                    flatten(v)
+            else:
+                conj.append(t)
+
+        for t in tests:
+            flatten(t)
+
+        def mentions(e, attr_path):
+            """e is var.<attr_path>, possibly followed by str method calls / further attributes of the value"""
+            while True:
+                if isinstance(e, ast.Call) and isinstance(e.func, ast.Attribute) and not e.args and not e.keywords:
+                    e = e.func.value          # x.lower()
+                    continue
+                break
+            chain = []
+            while isinstance(e, ast.Attribute):
+                chain.append(e.attr)
+                e = e.value
+            chain.reverse()
+            return isinstance(e, ast.Name) and e.id == var and chain[:len(attr_path)] == attr_path and len(chain) == len(attr_path)
+
+        name_ok = False
+        ver, major, minor = False, False, False
+        for c in conj:
+            if not (isinstance(c, ast.Compare) and len(c.ops) == 1 and isinstance(c.ops[0], ast.Eq)):
+                continue
+            sides = [c.left, c.comparators[0]]
+            if any(mentions(x, ["full_name"]) for x in sides):
+                name_ok = True
+            if any(mentions(x, ["version"]) for x in sides):
+                ver = True
+            if any(mentions(x, ["version", "major"]) for x in sides):
+                major = True
+            if any(mentions(x, ["version", "minor"]) for x in sides):
+                minor = True
+        return name_ok and (ver or (major and minor))
 
     def _e_Compare(self, e):
         self._expr(e.left)
@@ -429,13 +492,26 @@ class FunctionAnalysis:
         return self._expr(e.value)
 
     def _comp(self, e, elts):
+        pushed = 0
         for g in e.generators:
-            self._store(g.target, self._expr(g.iter))
-            for c in g.ifs:
-                self._expr(c)
+            src = self._expr(g.iter)
+            self._store(g.target, src)
+            sel = self.contract.filter_selects
+            if sel and src and isinstance(g.target, ast.Name) and g.ifs and self._selects(g.ifs, g.target.id):
+                # elements selected by a name-and-version predicate: inside the comprehension (condition excluded) the
+                # element has the selected provenance
+                for c in g.ifs:
+                    self._expr(c)
+                self.refined.append({g.target.id: {sel}})
+                pushed += 1
+            else:
+                for c in g.ifs:
+                    self._expr(c)
         out: Set[str] = set()
         for x in elts:
             out |= self._expr(x)
+        for _ in range(pushed):
+            self.refined.pop()
         return out
 
     def _e_ListComp(self, e):
@@ -547,9 +623,11 @@ class FunctionAnalysis:
             return recv | lam | (allargs if f.attr in ("get", "pop", "setdefault", "joinpath", "relative_to") else set())
         # ---- plain names
         if isinstance(f, ast.Name):
-            if f.id == "filter" and self.contract.filter_selects:
-                self._lambdas(call, allargs)
-                return {self.contract.filter_selects} if allargs else set()
+            if f.id == "filter" and self.contract.filter_selects and call.args and isinstance(call.args[0], ast.Lambda) \
+                    and len(call.args[0].args.args) == 1 and allargs \
+                    and self._selects([call.args[0].body], call.args[0].args.args[0].arg):
+                self._lambdas(call, allargs)  # the predicate itself sees the unrefined elements
+                return {self.contract.filter_selects}
             if f.id in TRANSPARENT:
                 return allargs | self._lambdas(call, allargs)
             if f.id in OPAQUE_RESULT:
